@@ -16,7 +16,7 @@ META = {
         "callback being that object's _flush / that class's _flush_buffer; (d) ownership: under the shared-memory strategy a root's _data is never REBOUND on a public path except to the "
         "buffer entry (reads re-point _data at the entry, so a rebound container is silently dropped); (e) code of the buffer/backend layer only uses operations on the data that exist "
         "for both dict and list (each such class is instantiated with both); (f) _save_to_buffer always leaves an entry for the file; (g) the serialized flush merges the entry's "
-        "contents before writing. Equality of returned values with an unbuffered run is NOT decided."
+        "contents before writing; (c') the outermost context also flushes when it is left by an exception. Equality of returned values with an unbuffered run is NOT decided."
     ),
     "rule": "contexts = buffered class x entry point x {root,nested} x {obj,backend} (+ context exits with counter 1/2); non-trivial = touches the buffer or the file",
     "trusted_base": ["engine CFG and call resolution", "abstract counters of the buffering contexts"],
